@@ -137,7 +137,9 @@ class PrefixedNameToken(XPathToken):
         # Change bind powers if it cannot be a namespace related token
         if self.is_spaced():
             self.lbp = self.rbp = 0
-        elif self.parser.token.symbol not in ('*', '(name)', 'array'):
+        elif self.parser.token.symbol not in ('*', '(name)', 'array') and \
+                (self.parser.token.label not in ('operator', 'symbol') or
+                 self.parser.name_pattern.match(self.parser.token.symbol) is None):
             self.lbp = self.rbp = 0
 
     def __str__(self) -> str:
